@@ -614,6 +614,41 @@ fn run_case(c: &Value) -> (String, usize, Value) {
             }
             (res.to_string(), total)
         }),
+        "longhaul" => guard(&mut || {
+            // a state that is only reachable after gigabytes of traffic: the peer announced a window close to 2^32 and
+            // keeps sending (one 16 MiB media message per call) until more than 2^32 bytes have arrived since then
+            let win = c["win"].as_u64().unwrap_or(0xFFFF_FFFF) as u32;
+            let side = c["side"].as_str().unwrap_or("server");
+            extra = json!({"class": format!("longhaul:{}:{}", side, win), "state": 0});
+            let mut head: Vec<u8> = Vec::new();
+            // SetChunkSize 2^24 (so that a 16 MiB message is one chunk), WindowAcknowledgement win - both on csid 2
+            head.extend_from_slice(&[2, 0, 0, 0, 0, 0, 4, 1, 0, 0, 0, 0, 1, 0, 0, 0]);
+            head.extend_from_slice(&[2, 0, 0, 0, 0, 0, 4, 5, 0, 0, 0, 0]);
+            head.extend_from_slice(&win.to_be_bytes());
+            let len = 16_777_215usize;
+            // video for the server (ignored while nobody publishes); a type the client hands back untouched for the client
+            let mut msg: Vec<u8> = vec![6, 0, 0, 0, 0xFF, 0xFF, 0xFF, if side == "server" { 9 } else { 22 }, 1, 0, 0, 0];
+            msg.resize(12 + len, 0x5A);
+            let calls = ((1u64 << 32) + (1u64 << 25)) / (msg.len() as u64) + 1;
+            let mut total = head.len();
+            let mut res = "ok";
+            if side == "server" {
+                let (mut srv, _) = ServerSession::new(ServerSessionConfig::new()).unwrap();
+                if srv.handle_input(&head).is_err() { res = "err"; }
+                for _ in 0..calls {
+                    if srv.handle_input(&msg).is_err() { res = "err"; break; }
+                    total += msg.len();
+                }
+            } else {
+                let (mut cl, _) = ClientSession::new(ClientSessionConfig::new()).unwrap();
+                if let Err(e) = cl.handle_input(&head) { res = "err"; extra["note"] = json!(format!("{:?}", e)); }
+                for _ in 0..calls {
+                    if let Err(e) = cl.handle_input(&msg) { res = "err"; extra["note"] = json!(format!("{:?}", e)); break; }
+                    total += msg.len();
+                }
+            }
+            (res.to_string(), total)
+        }),
         "hs" => guard(&mut || {
             let class = c["class"].as_u64().unwrap_or(0);
             let role = if seed % 2 == 0 { PeerType::Server } else { PeerType::Client };
@@ -971,6 +1006,12 @@ pub fn cases(kind: &str, tier: &str, seed: u64) -> Vec<Value> {
                     v.push(json!({"t":"client","state":state,"idx":idx,"cut": (idx as u64 + state) % 3,"seed":rng.next() >> 1}));
                 }
                 idx += 1;
+            }
+            for side in ["server", "client"].iter() {
+                v.push(json!({"t":"longhaul","side":side,"win":0xFFFF_FFFFu32,"seed":1}));
+                if thorough {
+                    v.push(json!({"t":"longhaul","side":side,"win":0xFF00_0000u32,"seed":1}));
+                }
             }
             for class in 0..5u64 {
                 for _ in 0..(if thorough { 200 } else { 30 }) {
